@@ -1,4 +1,5 @@
 #!/bin/sh
+exec </dev/null   # children (cargo's `rustc -` probe) must not read an inherited stdin
 # Build the framework from files on disk only (offline): Lean model + theorems + driver, Rust harness, CLI.
 set -e
 cd "$(dirname "$0")"
